@@ -95,6 +95,9 @@ class Fn:
                     if th:
                         k=[x.arg for x in cal.args.args].index(th)
                         if k<len(n.args) and isinstance(n.args[k],ast.Name) and n.args[k].id in self.params and n.args[k].id not in mut: mut.append(n.args[k].id)
+            for n in ast.walk(fn):
+                if (isinstance(n,ast.Call) and isinstance(n.func,ast.Attribute) and n.func.attr in getattr(mod,"method_thread_oracles",()) and isinstance(n.func.value,ast.Name)
+                        and n.func.value.id in self.params and n.func.value.id not in mut): mut.append(n.func.value.id)
             if len(mut)==1: self.thread=mut[0]
             elif len(mut)>1: raise Unsupported("two mutated parameters")
     def tmp(self): self.n+=1; return "t%d"%self.n
@@ -309,6 +312,10 @@ class Fn:
             t=self.tmp(); r=self.tmp(); o=self.tmp()
             binds.append("%s <- py_call (VFun (of_string %s)) (VList [%s]) ;; p_ <- unpack2 %s ;; let '(%s, %s) := p_ in "%(t,cq(f.value.attr+"."+f.attr),";".join([obj]+args),t,r,o))
             binds.append(self.store(f.value,o)); return r
+        if (isinstance(f,ast.Attribute) and f.attr in getattr(self.mod,"method_thread_oracles",()) and isinstance(f.value,ast.Name) and f.value.id in self.vars and not e.keywords):
+            obj=self.ex(f.value,binds); args=[self.ex(a,binds) for a in e.args]
+            t=self.tmp(); r=self.tmp()
+            binds.append("%s <- py_call (VFun (of_string %s)) (VList [%s]) ;; p_ <- unpack2 %s ;; let '(%s, v_%s) := p_ in "%(t,cq(f.attr),";".join([obj]+args),t,r,f.value.id)); return r
         # file-like parameters modelled as lists of strings
         if getattr(self.mod,"io_lists",False) and isinstance(f,ast.Attribute) and f.attr=="readlines" and not e.args and isinstance(f.value,ast.Name) and f.value.id in self.vars:
             return self.ex(f.value,binds)
@@ -478,6 +485,14 @@ class Fn:
             b=[]; a=self.ex(s.body[0].value,b); v=s.body[0].targets[0].id
             if any("v_self) := p_" in x for x in b): raise Unsupported("effect in try")
             return sp+"o_ <- py_try_ve (%sNormal %s) ;; let v_%s := match o_ with Some x_ => x_ | None => v_%s end in\n"%("".join(b),a,v,v)+self.block(rest,ind)
+        if (isinstance(s,ast.Try) and not s.orelse and not s.finalbody and len(s.body)==1 and isinstance(s.body[0],ast.Assign) and len(s.body[0].targets)==1
+                and isinstance(s.body[0].targets[0],ast.Name) and len(s.handlers)==1 and isinstance(s.handlers[0].type,ast.Name) and s.handlers[0].type.id=="ValueError"
+                and s.handlers[0].name is None and not all(isinstance(x,ast.Pass) for x in s.handlers[0].body)):
+            self.mod.need_lib2=True
+            b=[]; a=self.ex(s.body[0].value,b); v=s.body[0].targets[0].id
+            if any("v_self) := p_" in x for x in b): raise Unsupported("effect in try")
+            return (sp+"o_ <- py_try_ve (%sNormal %s) ;; e_ <~ (match o_ with Some x_ => let v_%s := x_ in Normal %s | None =>\n%s\n%send) ;; let %s := e_ in\n"
+                    %("".join(b),a,v,self.env(),self.block(s.handlers[0].body,ind+1),sp,self.pat()))+self.block(rest,ind)
         if isinstance(s,ast.Break): return sp+"Brk %s"%self.env()
         if isinstance(s,ast.Continue): return sp+"Cont %s"%self.env()
         if isinstance(s,ast.Raise) and isinstance(s.exc,ast.Call) and isinstance(s.exc.func,ast.Name) and s.exc.func.id=="ValueError":
@@ -561,7 +576,7 @@ def translate_module(path, pymod, wanted=None, oracles=(), xmods=None, external=
             t,_,_=E.pattern(pat,0); rx.append("Definition RX_%s : re := %s."%(nm,t))
         hdr_extra += ["Require Import Rx PyRe.", E.set_defs()] + rx
     if getattr(mod,"need_hash",False): hdr_extra.append("Require Import PyHash.")
-    if getattr(mod,"need_lib2",False): hdr_extra.append("Require Import PyLib2.")
+    if any(w in emitted_text for w in ("unpack3","py_try_ve","py_str_repeat","py_b2a_hex_encode","py_lstrip","py_rstrip","py_split_ws","py_stitch")): hdr_extra.append("Require Import PyLib2.")
     for r in requires: hdr_extra.append("Require Import %s."%r)
     for k,(xm,cm) in mod.xmods.items(): hdr_extra.append("Require %s."%cm)
     for cm in sorted(set(v[1] for v in mod.xfuncs.values())): hdr_extra.append("Require %s."%cm)
